@@ -1,10 +1,32 @@
----- MODULE MCC ----
-EXTENDS Constraints, TLC
-Pairs == {<<g, lim>> : g \in {0, 2, 5}, lim \in {10, 20}}
-VARIABLES c1, c2
-Init == c1 \in {<<>>} \cup {<<p>> : p \in Pairs} \cup {<<p, q>> : p \in Pairs, q \in Pairs} /\ c2 \in {<<>>} \cup {<<p>> : p \in Pairs}
-Next == UNCHANGED <<c1, c2>>
-Inv == LET t == Build(Empty, <<c1, c2>>) IN
-       /\ \A gap \in 0..6 : \A d1 \in {5, 10, 15, 20, 25} : \A d2 \in {5, 10, 15, 20, 25} : Monotone(t, gap, d1, d2)
-       /\ (c1 # <<>> => t[c1[1][1]] = c1[1][2])      \* the first configured limit of a gap wins
-====
+-------------------------------- MODULE MCC --------------------------------
+(* Model checking of Constraints.tla over the alphabet of CAlpha: for every      *)
+(* table, monotonicity in the distance, "first limit of a repeated gap wins",    *)
+(* "the applicable limit is the one of the smallest configured gap >= gap", and  *)
+(* agreement of the operational definition with the declarative one.             *)
+EXTENDS CAlpha, TLC
+VARIABLES stage, first, calls
+vars == <<stage, first, calls>>
+Init == stage = 0 /\ first = <<>> /\ calls = <<>>
+Next == \/ /\ stage = 0 /\ stage' = 1 /\ calls' = calls
+           /\ \E f \in {<<>>} \cup {<<p>> : p \in Pairs} : first' = f
+        \/ /\ stage = 1 /\ stage' = 2 /\ first' = first
+           /\ \E rest \in SeqsUpTo(IF first = <<>> THEN 0 ELSE MaxEntries - 1) :
+                \E sp \in Splits(first \o rest) : calls' = sp
+Spec == Init /\ [][Next]_vars
+All == calls[1] \o calls[2]
+Inv == stage = 2 =>
+       LET t == Build(Empty, calls)  ot == OpBuild(<<>>, calls) IN
+       /\ \A gap \in ProbeGaps : \A d1 \in DistSet : \A d2 \in DistSet : Monotone(t, gap, d1, d2)
+       /\ \A i \in 1..Len(All) : (\A j \in 1..(i - 1) : All[j][1] # All[i][1]) => t[All[i][1]] = All[i][2]
+       /\ DOMAIN t = {All[i][1] : i \in 1..Len(All)}
+       /\ \A gap \in ProbeGaps :
+            /\ (\A g \in DOMAIN t : g < gap) => (Limit(t, gap) = 0 /\ \A d \in DistSet : Validate(t, gap, d))
+            /\ \A g \in DOMAIN t : (g >= gap /\ \A h \in DOMAIN t : h >= gap => g <= h)
+                                   => (Limit(t, gap) = t[g] /\ \A d \in DistSet : (Validate(t, gap, d) <=> d <= t[g]))
+            /\ \A d \in DistSet : OpValidate(ot, gap, d) = Validate(t, gap, d)
+       /\ \A i \in 1..(Len(ot) - 1) : ot[i][1] < ot[i + 1][1]
+(* reachability witnesses: TLC must violate these *)
+W_NoDup == stage = 2 => ~(HasDupGap(All) /\ Len(calls[1]) > 0 /\ Len(calls[2]) > 0)
+W_NoBetween == stage = 2 => ~(\E gap \in ProbeGaps : \E g1, g2 \in DOMAIN Build(Empty, calls) : g1 < gap /\ gap < g2)
+W_NoReject == stage = 2 => \A gap \in ProbeGaps : \A d \in DistSet : Validate(Build(Empty, calls), gap, d)
+=============================================================================
